@@ -55,7 +55,15 @@ Definition regex_lib : list (list N * bool) :=
   ; ([64]%N, true)                                     (* @ *)
   ; ([94; 46; 123; 50; 44; 52; 125; 36]%N, true)       (* ^.{2,4}$ *)
   ; ([40]%N, false)                                    (* (   *)
-  ; ([91; 97; 45]%N, false) ].                         (* [a- *)
+  ; ([91; 97; 45]%N, false)                            (* [a- *)
+  (* keyed by the value of the literal: a backslash is the single code 92 *)
+  ; ([91; 92; 93]%N, false)                            (* [\] : unclosed class *)
+  ; ([92]%N, false)                                    (* a lone backslash *)
+  ; ([97; 92]%N, false)                                (* a then a backslash *)
+  ; ([34]%N, true)                                     (* a double quote *)
+  ; ([92; 100; 43]%N, true)                            (* \d+ *)
+  ; ([92; 92]%N, true)                                 (* an escaped backslash *)
+  ; ([91; 92; 93; 93]%N, true) ].                      (* [\]] *)
 
 Fixpoint list_N_eqb (a b : list N) : bool :=
   match a, b with
@@ -221,7 +229,7 @@ Fixpoint has_typed_leaf (e : expr) : bool :=
   match e with
   | ELit l => match l_suffix l with Some _ => true | None => false end
   | EConst _ => true
-  | ENeg a | EParen a => has_typed_leaf a
+  | ENeg a | ENot a | EParen a => has_typed_leaf a
   | EBin _ a b => has_typed_leaf a || has_typed_leaf b
   | EStr _ | EList _ => true
   end.
